@@ -5,7 +5,7 @@ REPO=${VERIF_REPO:-/repo}; bin=${2:-/verif/bin/ordalint}
 T=$(mktemp -d /tmp/ta.XXXX)
 git -C $REPO apply "$1" || { echo APPLY-FAILED; exit 3; }
 for i in 01 02 03 04 05 06 07 08 09 10 11 12 13 14 15 16 17 18 19 20; do
-  ($bin -repo $REPO -property C$i -tier quick -evidence $T/ev_C$i.json -known /verif/known_findings.json > $T/out_C$i.txt 2>&1; echo $? > $T/code_C$i.txt) &
+  ($bin -repo $REPO -property C$i -tier quick -evidence $T/ev_C$i.json -known ${VERIF_KNOWN:-/verif/known_findings.json} > $T/out_C$i.txt 2>&1; echo $? > $T/code_C$i.txt) &
 done; wait
 git -C $REPO checkout -- . ; git -C $REPO clean -fdq -- client server >/dev/null 2>&1
 res=""
